@@ -194,7 +194,7 @@ func (p *annotParser) typ(gt reflect.Type, annotated bool) (*Type, error) {
 		if annotated {
 			w := p.name()
 			if w == "i64" {
-				return &Type{Kind: KI64}, nil
+				return &Type{Kind: KI64, Named: gt.Name() != "" && gt.Name() != "int64" && gt.Name() != "int"}, nil
 			}
 			if gt.Name() != "" && gt.Name() != "int64" && gt.Name() != "int" && w == gt.Name() {
 				return &Type{Kind: KEnum}, nil
